@@ -1,6 +1,6 @@
-"""C05 — generated server routes, extracts and responds exactly as the spec says (structural tier)."""
-import json, os, random, re, subprocess
-import vlib, c04, c09
+"""C05 — generated server routes, extracts and responds exactly as the spec says (structural read-back + the compiled router run on loopback)."""
+import binascii, json, os, random, re, subprocess
+import vlib, c04, c09, arena
 from vlib import Result, log
 
 THEOREMS = ["C05_route_table", "C05_route_fn", "C05_status_units", "C05_status_unknown", "C05_error_is_500",
@@ -45,6 +45,251 @@ def key_class_ok(key, code):
     if re.fullmatch(r"\d{3}", key):
         return int(key) == code
     return key[0].isdigit() and int(key[0]) == code // 100
+
+
+# ======================================================================================================
+# dynamic leg: the generated axum router runs on the loopback interface and is driven with raw HTTP requests
+# ======================================================================================================
+def dyn_spec():
+    R = lambda t: {"$ref": f"#/components/schemas/{t}"}
+    J = lambda s: {"application/json": {"schema": s}}
+    P = lambda n, w, s, req=False, **kw: dict({"name": n, "in": w, "required": req, "schema": s}, **kw)
+    S, I = {"type": "string"}, {"type": "integer"}
+    want = P("X-Want", "header", S)
+    return {"openapi": "3.1.0", "info": {"title": "srv", "version": "1"}, "paths": {
+        "/items/{id}": {
+            "get": {"operationId": "get_item", "parameters": [P("id", "path", S, True), P("q", "query", S), P("n", "query", I), P("tags", "query", {"type": "array", "items": S}, explode=False), P("X-T", "header", S), want],
+                    "responses": {"200": {"description": "ok", "content": J(R("Echo"))}, "404": {"description": "nf"}, "default": {"description": "err", "content": J(R("Problem"))}}},
+            "put": {"operationId": "put_item", "parameters": [P("id", "path", S, True), want], "requestBody": {"required": True, "content": J(R("Item"))},
+                    "responses": {"200": {"description": "ok", "content": J(R("Echo"))}, "204": {"description": "nc"}, "422": {"description": "bad", "content": J(R("Problem"))}}},
+            "delete": {"operationId": "delete_item", "parameters": [P("id", "path", S, True)], "responses": {"204": {"description": "gone"}}}},
+        "/items": {"post": {"operationId": "create_item", "parameters": [want], "requestBody": {"required": True, "content": J(R("Item"))},
+                            "responses": {"201": {"description": "made", "content": J(R("Echo"))}, "409": {"description": "dup", "content": J(R("Problem"))}}},
+                   "get": {"operationId": "list_items", "parameters": [P("limit", "query", I)], "responses": {"200": {"description": "ok", "content": J({"type": "array", "items": R("Echo")})}}}},
+        "/a/{x}/b/{y}": {"get": {"operationId": "get_ab", "parameters": [P("x", "path", S, True), P("y", "path", I, True)], "responses": {"200": {"description": "ok", "content": J(R("Echo"))}}}},
+        "/kind/{kind}": {"get": {"operationId": "get_kind", "parameters": [P("kind", "path", {"type": "string", "enum": ["alpha", "beta"]}, True)],
+                                 "responses": {"200": {"description": "ok", "content": J(R("Echo"))}, "400": {"description": "bad"}}}},
+        "/text": {"get": {"operationId": "get_text", "parameters": [want], "responses": {"200": {"description": "ok", "content": {"text/plain": {"schema": S}}},
+                                                                                       "202": {"description": "acc", "content": {"application/octet-stream": {"schema": {"type": "string", "format": "binary"}}}}}}},
+        "/form": {"post": {"operationId": "post_form", "requestBody": {"required": True, "content": {"application/x-www-form-urlencoded": {"schema": {"type": "object", "properties": {"a": S, "b": I}}}}},
+                           "responses": {"200": {"description": "ok", "content": J(R("Echo"))}, "413": {"description": "big"}}}},
+        "/opt": {"post": {"operationId": "post_opt", "requestBody": {"content": J(R("Item"))}, "responses": {"200": {"description": "ok", "content": J(R("Echo"))}, "410": {"description": "gone"}}}},
+    }, "components": {"schemas": {"Item": {"type": "object", "required": ["name"], "properties": {"name": S, "qty": I}},
+                                  "Echo": {"type": "object", "properties": {"seen": S}}, "Problem": {"type": "object", "properties": {"detail": S}}}}}
+
+
+DYN_MAIN_HEAD = r'''
+use case_0 as S;
+use std::sync::{Arc, Mutex};
+#[derive(Clone)]
+struct Svc { calls: Arc<Mutex<Vec<String>>> }
+impl Svc { fn note(&self, n: &str) { self.calls.lock().unwrap().push(n.to_string()); } }
+fn echo(s: String) -> S::Echo { S::Echo { seen: Some(s) } }
+impl S::ApiServer for Svc {
+    async fn get_item(&self, r: S::GetItemRequest) -> anyhow::Result<S::GetItemResponse> {
+        self.note("get_item");
+        match r.header.x_want.as_deref() {
+            Some("nf") => Ok(S::GetItemResponse::NotFound),
+            Some("err") => Err(anyhow::anyhow!("boom")),
+            _ => Ok(S::GetItemResponse::Ok(echo(format!("id={:?} q={:?} n={:?} tags={:?} xt={:?}", r.path.id, r.query.q, r.query.n, r.query.tags, r.header.x_t)))),
+        }
+    }
+    async fn put_item(&self, r: S::PutItemRequest) -> anyhow::Result<S::PutItemResponse> {
+        self.note("put_item");
+        match r.header.x_want.as_deref() {
+            Some("nc") => Ok(S::PutItemResponse::NoContent),
+            Some("bad") => Ok(S::PutItemResponse::UnprocessableEntity(S::Problem { detail: Some("bad".to_string()) })),
+            Some("err") => Err(anyhow::anyhow!("boom")),
+            _ => Ok(S::PutItemResponse::Ok(echo(format!("id={:?} name={:?} qty={:?}", r.path.id, r.body.name, r.body.qty)))),
+        }
+    }
+    async fn delete_item(&self, r: S::DeleteItemRequest) -> anyhow::Result<S::DeleteItemResponse> {
+        self.note(&format!("delete_item({})", r.path.id));
+        Ok(S::DeleteItemResponse::NoContent)
+    }
+    async fn create_item(&self, r: S::CreateItemRequest) -> anyhow::Result<S::CreateItemResponse> {
+        self.note("create_item");
+        match r.header.x_want.as_deref() {
+            Some("dup") => Ok(S::CreateItemResponse::Conflict(S::Problem { detail: Some("dup".to_string()) })),
+            _ => Ok(S::CreateItemResponse::Created(echo(format!("name={:?} qty={:?}", r.body.name, r.body.qty)))),
+        }
+    }
+    async fn list_items(&self, r: S::ListItemsRequest) -> anyhow::Result<S::ListItemsResponse> {
+        self.note("list_items");
+        Ok(S::ListItemsResponse::Ok(vec![echo(format!("limit={:?}", r.query.limit)), echo("second".to_string())]))
+    }
+    async fn get_ab(&self, r: S::GetAbRequest) -> anyhow::Result<S::GetAbResponse> {
+        self.note("get_ab");
+        Ok(S::GetAbResponse::Ok(echo(format!("x={:?} y={:?}", r.path.x, r.path.y))))
+    }
+    async fn get_kind(&self, r: S::GetKindRequest) -> anyhow::Result<S::GetKindResponse> {
+        self.note("get_kind");
+        Ok(S::GetKindResponse::Ok(echo(format!("kind={}", r.path.kind))))
+    }
+    async fn get_text(&self, r: S::GetTextRequest) -> anyhow::Result<S::GetTextResponse> {
+        self.note("get_text");
+        match r.header.x_want.as_deref() {
+            Some("bin") => Ok(S::GetTextResponse::Accepted(vec![1u8, 2, 255])),
+            _ => Ok(S::GetTextResponse::Ok("plain \u{fc}".to_string())),
+        }
+    }
+    async fn post_form(&self, r: S::PostFormRequest) -> anyhow::Result<S::PostFormResponse> {
+        self.note("post_form");
+        Ok(S::PostFormResponse::Ok(echo(format!("a={:?} b={:?}", r.body.a, r.body.b))))
+    }
+    async fn post_opt(&self, r: S::PostOptRequest) -> anyhow::Result<S::PostOptResponse> {
+        self.note("post_opt");
+        Ok(S::PostOptResponse::Ok(echo(format!("body={:?}", r.body.map(|b| (b.name, b.qty))))))
+    }
+}
+fn hex(b: &[u8]) -> String { let mut s = String::new(); for x in b { s.push_str(&format!("{:02x}", x)); } if s.is_empty() { "-".to_string() } else { s } }
+fn main() {
+    let rt = tokio::runtime::Builder::new_multi_thread().worker_threads(2).enable_all().build().unwrap();
+    rt.block_on(async {
+        let listener = tokio::net::TcpListener::bind("127.0.0.1:0").await.unwrap();
+        let port = listener.local_addr().unwrap().port();
+        let calls = Arc::new(Mutex::new(Vec::new()));
+        let svc = Svc { calls: calls.clone() };
+        tokio::spawn(async move { axum::serve(listener, S::router(svc)).await.unwrap(); });
+        let client = reqwest::Client::builder().redirect(reqwest::redirect::Policy::none()).build().unwrap();
+        let probes: Vec<(usize, &str, &str, Vec<(&str, &str)>, Option<(&str, Vec<u8>)>)> = vec![
+'''
+
+DYN_MAIN_TAIL = r'''
+        ];
+        for (k, method, target, headers, body) in probes {
+            let mut rb = client.request(reqwest::Method::from_bytes(method.as_bytes()).unwrap(), format!("http://127.0.0.1:{}{}", port, target));
+            for (h, v) in headers { rb = rb.header(h, v); }
+            if let Some((ct, bytes)) = body { if !ct.is_empty() { rb = rb.header("content-type", ct); } rb = rb.body(bytes); }
+            match rb.send().await {
+                Ok(resp) => {
+                    let st = resp.status().as_u16();
+                    let ct = resp.headers().get("content-type").and_then(|v| v.to_str().ok()).unwrap_or("-").to_string();
+                    let b = resp.bytes().await.map(|b| b.to_vec()).unwrap_or_default();
+                    let cs: Vec<String> = calls.lock().unwrap().drain(..).collect();
+                    println!("{}\t{}\t{}\t{}\t{}", k, st, ct, hex(&b), if cs.is_empty() { "-".to_string() } else { cs.join(",") });
+                }
+                Err(e) => println!("{}\tERR\t{}", k, format!("{:#}", e).replace('\n', " ")),
+            }
+        }
+    });
+}
+'''
+
+
+def dyn_probes():
+    """(method, target, headers, body (content type, bytes) | None, expectation)
+    expectation: dict(status | statuses, calls, json | text | bytes | empty, ctype prefix)"""
+    js = lambda o: ("application/json", json.dumps(o).encode())
+    E = lambda seen: {"seen": seen}
+    return [
+        ("GET", "/items/abc", [], None, dict(status=200, calls=["get_item"], json=E('id="abc" q=None n=None tags=None xt=None'))),
+        ("GET", "/items/a%2Fb%20c?q=x%20y&n=-5&tags=a,b", [("X-T", "t1")], None, dict(status=200, calls=["get_item"], json=E('id="a/b c" q=Some("x y") n=Some(-5) tags=Some(["a", "b"]) xt=Some("t1")'))),
+        ("GET", "/items/%C3%BC?q=", [], None, dict(status=200, calls=["get_item"], json=E('id="ü" q=Some("") n=None tags=None xt=None'))),
+        ("GET", "/items/abc", [("X-Want", "nf")], None, dict(status=404, calls=["get_item"], empty=True)),
+        ("GET", "/items/abc", [("X-Want", "err")], None, dict(status=500, calls=["get_item"])),
+        ("PUT", "/items/k1", [], js({"name": "n", "qty": 3}), dict(status=200, calls=["put_item"], json=E('id="k1" name="n" qty=Some(3)'))),
+        ("PUT", "/items/k1", [("X-Want", "nc")], js({"name": "n"}), dict(status=204, calls=["put_item"], empty=True)),
+        ("PUT", "/items/k1", [("X-Want", "bad")], js({"name": "n"}), dict(status=422, calls=["put_item"], json={"detail": "bad"})),
+        ("PUT", "/items/k1", [("X-Want", "err")], js({"name": "n"}), dict(status=500, calls=["put_item"])),
+        ("PUT", "/items/k1", [], ("application/json", b'{"name": '), dict(statuses=range(400, 500), calls=[])),
+        ("PUT", "/items/k1", [], js({"qty": 3}), dict(statuses=range(400, 500), calls=[])),
+        ("DELETE", "/items/zz%20top", [], None, dict(status=204, calls=["delete_item(zz top)"], empty=True)),
+        ("POST", "/items", [], js({"name": "a ü", "qty": -1}), dict(status=201, calls=["create_item"], json=E('name="a ü" qty=Some(-1)'))),
+        ("POST", "/items", [("X-Want", "dup")], js({"name": "a"}), dict(status=409, calls=["create_item"], json={"detail": "dup"})),
+        ("GET", "/items?limit=7", [], None, dict(status=200, calls=["list_items"], json=[E("limit=Some(7)"), E("second")])),
+        ("GET", "/items", [], None, dict(status=200, calls=["list_items"], json=[E("limit=None"), E("second")])),
+        ("GET", "/items?limit=seven", [], None, dict(statuses=range(400, 500), calls=[])),
+        ("GET", "/a/p%2Fq/b/42", [], None, dict(status=200, calls=["get_ab"], json=E('x="p/q" y=42'))),
+        ("GET", "/a/p/b/-9223372036854775808", [], None, dict(status=200, calls=["get_ab"], json=E('x="p" y=-9223372036854775808'))),
+        ("GET", "/a/p/b/notint", [], None, dict(statuses=range(400, 500), calls=[])),
+        ("GET", "/kind/beta", [], None, dict(status=200, calls=["get_kind"], json=E("kind=beta"))),
+        ("GET", "/kind/gamma", [], None, dict(statuses=range(400, 500), calls=[])),
+        ("GET", "/text", [], None, dict(status=200, calls=["get_text"], text="plain ü", ctype="text/plain")),
+        ("GET", "/text", [("X-Want", "bin")], None, dict(status=202, calls=["get_text"], bytes=bytes([1, 2, 255]), ctype="application/octet-stream")),
+        ("POST", "/form", [], ("application/x-www-form-urlencoded", b"a=x+y%26z&b=7"), dict(status=200, calls=["post_form"], json=E('a=Some("x y&z") b=Some(7)'))),
+        ("POST", "/form", [], ("application/x-www-form-urlencoded", b""), dict(status=200, calls=["post_form"], json=E("a=None b=None"))),
+        ("POST", "/opt", [], js({"name": "z"}), dict(status=200, calls=["post_opt"], json=E('body=Some(("z", None))'))),
+        ("POST", "/opt", [], None, dict(status=200, calls=["post_opt"], json=E("body=None"))),
+        # undeclared paths and methods: no handler, 404 / 405
+        ("GET", "/nope", [], None, dict(status=404, calls=[])),
+        ("GET", "/items/abc/extra", [], None, dict(status=404, calls=[])),
+        ("GET", "/items/", [], None, dict(status=404, calls=[])),
+        ("GET", "/a/p/b", [], None, dict(status=404, calls=[])),
+        ("GET", "/ITEMS", [], None, dict(status=404, calls=[])),
+        ("POST", "/items/abc", [], js({"name": "n"}), dict(status=405, calls=[])),
+        ("PATCH", "/items", [], js({"name": "n"}), dict(status=405, calls=[])),
+        ("GET", "/form", [], None, dict(status=405, calls=[])),
+        ("DELETE", "/text", [], None, dict(status=405, calls=[])),
+        ("PUT", "/opt", [], js({"name": "n"}), dict(status=405, calls=[])),
+    ]
+
+
+def dynamic_leg(viol, known_hits):
+    spec = dyn_spec()
+    d = vlib.scratch("C05d")
+    sp = os.path.join(d, "spec.json")
+    json.dump(spec, open(sp, "w"))
+    outp = os.path.join(d, "server")
+    rc, txt = vlib.oas(["generate", "server-mod", "-i", sp, "-o", outp, "-q"])
+    if rc != 0:
+        viol.append(([], f"dynamic leg: server-mod generation failed {txt[-200:]}"))
+        return 0
+    probes = dyn_probes()
+    rs = lambda s: '"' + s.replace("\\", "\\\\").replace('"', '\\"') + '"'
+    lines = []
+    for k, (m, target, hdrs, body, _) in enumerate(probes):
+        hs = ", ".join(f"({rs(a)}, {rs(b)})" for a, b in hdrs)
+        bd = "None" if body is None else f"Some(({rs(body[0])}, vec![{', '.join(str(x) for x in body[1])}]))"
+        lines.append(f"            ({k}, {rs(m)}, {rs(target)}, vec![{hs}], {bd}),")
+    ar = arena.Arena("C05d")
+    ar.add_case(0, outp)
+    ar.write_main(DYN_MAIN_HEAD + "\n".join(lines) + DYN_MAIN_TAIL)
+    ok, diags, err = ar.cargo("build")
+    if not ok:
+        viol.append(([], f"dynamic leg: the generated server and its driver do not build: {(diags[0]['rendered'] if diags else err)[:500]}"))
+        return 0
+    rc, outp_, errp = ar.run("", timeout=180)
+    obs = {}
+    for line in outp_.split("\n"):
+        parts = line.split("\t")
+        if len(parts) >= 3 and parts[0].isdigit():
+            obs[int(parts[0])] = parts[1:]
+    n = 0
+    for k, (m, target, hdrs, body, exp) in enumerate(probes):
+        o = obs.get(k)
+        what = f"{m} {target}" + (f" {dict(hdrs)}" if hdrs else "") + (f" body={body[1][:40]!r}" if body else "")
+        if o is None or o[0] == "ERR":
+            viol.append(([what], f"dynamic leg: {what}: no response observed ({o[1] if o else 'runner rc=' + str(rc) + ' ' + errp[-150:]})"))
+            continue
+        n += 1
+        st, ct, bhex, calls = int(o[0]), o[1], o[2], ([] if o[3] == "-" else o[3].split(","))
+        bodyb = binascii.unhexlify(bhex) if bhex != "-" else b""
+        if calls != exp["calls"]:
+            viol.append(([what], f"dynamic leg: {what}: handlers invoked {calls}, the spec routes this request to {exp['calls'] or 'no handler'}"))
+            continue
+        if ("status" in exp and st != exp["status"]) or ("statuses" in exp and st not in exp["statuses"]):
+            viol.append(([what], f"dynamic leg: {what}: answered with status {st}, declared / required {exp.get('status') or 'a 4xx status'}"))
+            continue
+        if exp.get("empty") and bodyb:
+            viol.append(([what], f"dynamic leg: {what}: a variant without content is sent with a body {bodyb[:60]!r}"))
+        if "json" in exp:
+            try:
+                got = json.loads(bodyb.decode("utf-8"))
+            except Exception:
+                got = bodyb[:80]
+            if got != exp["json"] or not ct.startswith("application/json"):
+                viol.append(([what], f"dynamic leg: {what}: body {got!r} ({ct}), the handler's payload / received values are {exp['json']!r} as application/json"))
+        for key, want in (("text", exp.get("text")), ("bytes", exp.get("bytes"))):
+            if want is None:
+                continue
+            wantb = want.encode("utf-8") if isinstance(want, str) else want
+            if bodyb != wantb or not ct.startswith(exp["ctype"]):
+                if ct.startswith("application/json"):
+                    known_hits.add("payload-always-json")      # recorded: every payload goes out as axum::Json
+                else:
+                    viol.append(([what], f"dynamic leg: {what}: body {bodyb[:60]!r} ({ct}), declared {exp['ctype']} carrying {wantb[:60]!r}"))
+    return n
 
 
 def main(tier, seed, replay=None):
@@ -239,16 +484,19 @@ def main(tier, seed, replay=None):
             for k, shape in o["responses"]:
                 if any(ct.startswith("text/") or ct == "application/octet-stream" for ct, _ in shape):
                     known_hits.add("payload-always-json")
-    res.counts.update({"evaluations": n_eval, "distinct_nontrivial": len(cases), "specs": len(cases),
+    # ---- the compiled router, run on the loopback interface
+    n_dyn = dynamic_leg(viol, known_hits)
+    res.oblige("dynamic leg: the generated router was built and answered every probe", n_dyn == len(dyn_probes()), f"{n_dyn} of {len(dyn_probes())} probes observed")
+    res.counts.update({"evaluations": n_eval, "dynamic_probes": n_dyn, "distinct_nontrivial": len(cases), "specs": len(cases),
                        "traces_validated_against_impl": len(cases) if exe else 0,
-                       "rule": "server-mod specs with 1-6 operations over 10 path templates (plain, multi-parameter, mixed literal/parameter segments, names needing sanitising) x 8 methods x response sets; router(), handler functions and IntoResponse arms read back with syn and compared with the extracted model (route table, sent status per key); oracle: exactly one (pattern, method) route per operation, status covered by the declared key, errors -> 500"})
+                       "rule": "server-mod specs with 1-6 operations over 10 path templates (plain, multi-parameter, mixed literal/parameter segments, names needing sanitising) x 8 methods x response sets; router(), handler functions and IntoResponse arms read back with syn and compared with the extracted model (route table, sent status per key); oracle: exactly one (pattern, method) route per operation, status covered by the declared key, errors -> 500; plus a dynamic leg: a fixed feature spec (10 operations: path / query / header / delimited-array parameters, json / form / optional bodies, text and binary responses, enum and integer path parameters) generated as server-mod, compiled with a recording trait implementation and driven over the loopback interface with raw requests: which handler runs with which values, the status and body of every declared variant, handler errors (500), malformed values (4xx, no handler), undeclared paths (404) and methods (405)"})
     for ops in cases[:3]:
         res.sample({"ops": [(o["method"], o["template"], [k for k, _ in o["responses"]]) for o in ops]})
     res.oblige(f"correspondence: model = implementation on {len(cases)} server-mod outputs", not dis, dis[0] if dis else "")
     res.cov["trusted_base"] = vlib.COMMON_TRUSTED + [
         "coq/Model/Server.v, Model/Path.v: hand model of RouterFragment / ParsedPath; HttpMethodFragment, HttpStatusCode and the IntoResponse shape are translated",
-        "axum/matchit routing semantics (exact method, {name} matches one segment, 404/405) are a library contract, not exercised in this tier"]
-    res.assumptions = ["structural tier only: the compiled router is not run in this round (no tower oneshot); request extraction (Path/Query/HeaderMap/body) is read back as extractor lists but not executed"]
+        "axum/matchit routing semantics are exercised by the dynamic leg on one feature spec (real sockets on 127.0.0.1), not modelled", "lib/c05.py dynamic leg: hand-written trait implementation and expectations for the fixed spec"]
+    res.assumptions = ["PARTIAL: the theorems are about the route table and the status mapping; delivery of values and bodies is observed on the dynamic leg's fixed spec, HEAD / OPTIONS / TRACE routes and the `default` variant (recorded under C06) are not driven dynamically"]
     kf = {k["key"]: k["text"] for k in vlib.known_findings("C05")}
     for k in sorted(known_hits):
         if k in kf:
